@@ -4,12 +4,14 @@ use std::io::{self, BufRead, Write};
 use std::panic;
 
 mod color;
+mod typemap;
 
 fn main() {
     let args: Vec<String> = std::env::args().collect();
     let cmd = args.get(1).map(String::as_str).unwrap_or("");
     let f: fn(&serde_json::Value) -> serde_json::Value = match cmd {
         "color" => color::run,
+        "typemap" => typemap::run,
         _ => {
             eprintln!("usage: vh <color|...> < cases.jsonl");
             std::process::exit(2);
